@@ -138,7 +138,7 @@ def aces(config: str, **kwargs) -> LUAceg:
     acl_o = Acl(platform=platform, **acl_kwargs)  # type: ignore
     for line in parser.lines:
         # noinspection PyProtectedMember
-        if ace_o := acl_o._line_to_oace(line):
+        if ace_o := acl_o._line_to_oace(h.replace_spaces(line)):
             acl_o.items.append(ace_o)
 
     if group_by:
